@@ -9,7 +9,7 @@ import GeosModel.Model.Precision.Near
 /-! Driver for C04 (exe `drv_c04`).
 
 * `precise`   : `<newScale> <v>*`                        → `<scale> <makePrecise v>*`  (bits; floating model)
-* `hotpixel`  : `<sf> <ptx> <pty> <p0x> <p0y> <p1x> <p1y>` → 4 chars: intersects(p0) intersects(p1) intersects(p0,p1) intersects(p1,p0)
+* `hotpixel` (`hotpixel-div`: alternative scaling convention)  : `<sf> <ptx> <pty> <p0x> <p0y> <p1x> <p1y>` → 4 chars: intersects(p0) intersects(p1) intersects(p0,p1) intersects(p1,p0)
 * `prec-ops`  : `O <op> <flags> <g> | A | B | <ok|ex> R | valid=<0|1|->` → `ok` / `bad <what> …` / `skip <why>`
 * `prec-ops-stat` : same input, answers `ok far=<n> in=<n> verts=<n>` (distribution only)
 -/
@@ -37,18 +37,23 @@ def toInts (vs : List Val) : Option (List Int) := do
 
 def b2c (b : Bool) : Char := if b then '1' else '0'
 
-def hotpixel (line : String) : String :=
+def hotpixel (byDivision : Bool) (line : String) : String :=
   match (Driver.tokens line).mapM Driver.parseHex64 with
   | some [sf, ptx, pty, p0x, p0y, p1x, p1y] =>
     let sf := F64.decode sf
     let d := F64.decode
     let isOne := vFeq sf one
+    -- scale(val) = val * scaleFactor (the code as it is); `byDivision`: the alternative convention val / gridSize with
+    -- gridSize = snapToInt(1/scaleFactor) for scaleFactor < 1 (what PrecisionModel::makePrecise does), used by the check
+    -- only to tell a change of scaling convention from a wrong pixel rule
+    let gs := snapToInt (divF one sf) tol1em5
+    let scv (v : Val) : Val := if byDivision && vLt sf one then divF v gs else mulF v sf
+    let sc (v : UInt64) : Val := scv (d v)
     -- constructor: hpx = pt.x, or scaleRound(pt.x) = util::round(pt.x * scaleFactor) when scaleFactor != 1
-    let hpx := if isOne then d ptx else javaRoundF (mulF (d ptx) sf)
-    let hpy := if isOne then d pty else javaRoundF (mulF (d pty) sf)
+    let hpx := if isOne then d ptx else javaRoundF (scv (d ptx))
+    let hpy := if isOne then d pty else javaRoundF (scv (d pty))
     let minx := subF hpx halfF; let maxx := addF hpx halfF
     let miny := subF hpy halfF; let maxy := addF hpy halfF
-    let sc (v : UInt64) : Val := mulF (d v) sf           -- scale(val) = val * scaleFactor
     match toInts [minx, maxx, miny, maxy, sc p0x, sc p0y, sc p1x, sc p1y] with
     | some [a, b, c, e, x0, y0, x1, y1] =>
       let h : Px := ⟨a, b, c, e⟩
@@ -167,7 +172,8 @@ end Driver.C04
 def main (args : List String) : IO UInt32 := do
   match args with
   | ["precise"] => Driver.loop (← IO.getStdin) (← IO.getStdout) Driver.C04.precise; return 0
-  | ["hotpixel"] => Driver.loop (← IO.getStdin) (← IO.getStdout) Driver.C04.hotpixel; return 0
+  | ["hotpixel"] => Driver.loop (← IO.getStdin) (← IO.getStdout) (Driver.C04.hotpixel false); return 0
+  | ["hotpixel-div"] => Driver.loop (← IO.getStdin) (← IO.getStdout) (Driver.C04.hotpixel true); return 0
   | ["prec-ops"] => Driver.loop (← IO.getStdin) (← IO.getStdout) (Driver.C04.precOps false); return 0
   | ["prec-ops-stat"] => Driver.loop (← IO.getStdin) (← IO.getStdout) (Driver.C04.precOps true); return 0
   | _ => IO.eprintln "usage: drv_c04 precise|hotpixel|prec-ops|prec-ops-stat"; return 2
